@@ -15,7 +15,7 @@ def run(ctx):
         sync_misc.portfolio_sync(c, corr, tr, ix)
         for op in tr.rec.pf_ops:
             c.nontrivial(op["op"], op["args"].get("account"), op["args"].get("days"), op["raised"])
-    tstream.stream(ctx, ctx.n(50, 2500), None, [monitors.c03_monitor], extra_sync=extra)
+    tstream.stream(ctx, ctx.n(50, 2500), None, [monitors.c03_monitor], extra_sync=extra, cfg_opts=lambda k: {"p_init_pos": 0.2})
 
 
 def replay(ctx, data):
